@@ -137,10 +137,10 @@ def handle (toks : List String) : String :=
       -- the writer emits an all-valid bitmap of ceil(rows/8) bytes at offset 0 as buffer 0;
       -- `next_buffer` slices it first, then the patched values buffer
       match ipcSlice bl 0 ((rows + 7) / 8) with
-      | .error e => showErr e
+      | .error _ => "ERR"
       | .ok _ =>
         match ipcSlice bl off len with
-        | .error e => showErr e
+        | .error _ => "ERR"
         | .ok (_, l) => if rows * 4 ≤ l then "ok" else "ERR"
     | _, _, _, _ => "bad-op"
   | op :: _ => if searchOps.contains op then "SKIP" else "bad-op"
